@@ -131,29 +131,29 @@ class Block1014(object):
         Write requested bytes to the output file object.
         """
         # not enough bytes to complete a block, just write and subtract from remaining
-        LOGGER.debug(f'bytes_to_write={bytes_to_write}')
+        LOGGER.debug(f'bytes_to_write={bytes_to_write!r}')
         if len(bytes_to_write) < self.remaining_chars:
             LOGGER.debug(f'len->{len(bytes_to_write)}<{self.remaining_chars}')
-            LOGGER.debug(f'write {bytes_to_write}')
+            LOGGER.debug(f'write {bytes_to_write!r}')
             self.file_obj.write(bytes_to_write)
             self.remaining_chars -= len(bytes_to_write)
             return
 
         # complete the first record
-        LOGGER.debug(f'write first: {bytes_to_write[:self.remaining_chars]}')
+        LOGGER.debug(f'write first: {bytes_to_write[:self.remaining_chars]!r}')
         self.file_obj.write(bytes_to_write[:self.remaining_chars])
         self.file_obj.write(self.PAD_CHAR * 2)
         bytes_to_write = bytes_to_write[self.remaining_chars:]
 
         # now write complete blocks
         while len(bytes_to_write) > 1012:
-            LOGGER.debug(f'write while: {bytes_to_write[:1012]}')
+            LOGGER.debug(f'write while: {bytes_to_write[:1012]!r}')
             self.file_obj.write(bytes_to_write[:1012])
             self.file_obj.write(self.PAD_CHAR * 2)
             bytes_to_write = bytes_to_write[1012:]
 
         # write whatever is left
-        LOGGER.debug(f'write last: {bytes_to_write}')
+        LOGGER.debug(f'write last: {bytes_to_write!r}')
         self.file_obj.write(bytes_to_write)
         self.remaining_chars = 1012-len(bytes_to_write)
         LOGGER.debug(f'remaining_chars={self.remaining_chars}')
@@ -343,7 +343,7 @@ class IpmReader(VbsReader):
     def __next__(self) -> dict:
 
         vbs_record = super(IpmReader, self).__next__()
-        LOGGER.debug(f'{len(vbs_record)}: {vbs_record}')
+        LOGGER.debug(f'{len(vbs_record)}: {vbs_record!r}')
         try:
             output = iso8583.loads(vbs_record, encoding=self.encoding, iso_config=self.iso_config)
         except CardutilError as ex:
